@@ -4,6 +4,7 @@ CONSTANTS
   MaxTs = 2
   MaxCrashes = 2
   Proposer = {0}
+  EndHeight0IntoEmptyHead = FALSE
   ShortTornUndetected = TRUE
   Weak_ReleaseBeforeSave = FALSE
   Weak_CheckHRSIgnoresStep = FALSE
